@@ -114,34 +114,71 @@ fn c05_state_decision_matches_figure_33() {
     kani::cover!(want == SpecDecision::None);
 }
 
-/// find_best_announce_message over up to three candidates: the result is one of the inputs and no input is
-/// strictly better than it (data set comparison, age as tie-break).
+/// find_best_announce_message over two candidates of a consistent network: the result is one of the inputs
+/// and is not worse than the other (data set comparison, then age as tie-break: the newer one wins).
+/// For more candidates the same follows from std's `max_by` and the two machine-checked facts that the
+/// relation is antisymmetric (c05_compare_matches_figures_34_35) and transitive on consistent sets
+/// (c05_compare_is_transitive_on_consistent_sets) -- that last step is a paper argument.
 #[kani::proof]
 #[kani::unwind(9)]
 fn c05_find_best_is_a_maximum() {
     let a = any_best();
     let b = any_best();
-    let c = any_best();
     let n: u8 = kani::any();
-    kani::assume(n <= 3);
+    kani::assume(n <= 2);
     let mut v: ArrayVec3 = arrayvec::ArrayVec::new();
     if n >= 1 { v.push(a); }
     if n >= 2 { v.push(b); }
-    if n >= 3 { v.push(c); }
     let best = Bmca::<()>::find_best_announce_message(v.clone());
     assert!(best.is_some() == (n > 0));
     if let Some(best) = best {
-        let mut i = 0;
-        let mut member = false;
-        while i < 3 {
-            if i < v.len() {
-                member |= v[i] == best;
-                // never worse than any other candidate
-                assert!(best.compare(&v[i]) != core::cmp::Ordering::Less);
+        assert!(best == a || (n == 2 && best == b));
+        if n == 2 {
+            let other = if best == a { b } else { a };
+            let ord = to_spec(ds_of(&best).compare(&ds_of(&other)));
+            // never worse by the data set comparison; on a tie never older
+            assert!(!matches!(ord, SpecOrd::BBetter | SpecOrd::BBetterTopo));
+            if matches!(ord, SpecOrd::Error1 | SpecOrd::Error2) {
+                assert!(verif_fm::dur_bits(best.age) <= verif_fm::dur_bits(other.age));
             }
-            i += 1;
         }
-        assert!(member);
     }
 }
 type ArrayVec3 = arrayvec::ArrayVec<BestAnnounceMessage, 3>;
+
+
+/// BOUND: foreign-master table with <= 2 records of <= 2 messages.
+/// take_best_port_announce_message: Erbest is the newest message of a record with >= 2 messages (C06), tagged
+/// with the receiving port's identity; the chosen message is put back *with its age* (so it keeps ageing and
+/// expires with the window), the newest messages of the other qualified records are consumed.
+#[kani::proof]
+#[kani::unwind(9)]
+#[kani::stub(<Duration as core::ops::Mul<u16>>::mul, verif_fm::stub_mul_window)]
+fn c06_take_best_keeps_age_and_needs_two() {
+    let own = any_port_identity();
+    let interval = any_time_interval();
+    let list = verif_fm::any_valid_list(own, interval, 2, 2);
+    let n0 = verif_fm::n_masters(&list);
+    let len_a = if n0 > 0 { verif_fm::n_messages_of(&list, 0) } else { 0 };
+    let len_b = if n0 > 1 { verif_fm::n_messages_of(&list, 1) } else { 0 };
+    let mut bmca = Bmca::new(crate::config::AcceptAnyMaster, interval, own);
+    bmca.foreign_master_list = list;
+
+    let best = bmca.take_best_port_announce_message();
+
+    assert!(best.is_some() == (len_a >= 2 || len_b >= 2));
+    if let Some(b) = best {
+        assert!(b.identity == own);
+        assert!(b.message.steps_removed < 255);
+        assert!(b.message.header.source_port_identity.clock_identity != own.clock_identity);
+        let sender = b.message.header.source_port_identity;
+        let idx = verif_fm::index_of(&bmca.foreign_master_list, sender, 2).unwrap();
+        // the record of the chosen master is complete again and its newest message has the age it had
+        let (seq, age) = verif_fm::newest_of(&bmca.foreign_master_list, idx);
+        assert!(seq == b.header.sequence_id);
+        assert!(age == verif_fm::dur_bits(b.age));
+        assert!(verif_fm::n_messages_of(&bmca.foreign_master_list, idx) == 2);
+    }
+    assert!(verif_fm::valid(&bmca.foreign_master_list, 2, 2));
+    kani::cover!(len_a >= 2 && len_b >= 2);
+}
